@@ -41,11 +41,11 @@ type connScn struct {
 	Closers       int       `json:"closers,omitempty"`
 	// EarlyClose: the closers have the connection from OnPrepare (the first moment user code sees it)
 	// and may close it from their own goroutines from then on, i.e. also while netpoll registers it.
-	EarlyClose bool `json:"early_close,omitempty"`
-	Detach        bool      `json:"detach,omitempty"`
-	Observer      bool      `json:"observer,omitempty"`
-	LateSetReq    bool      `json:"late_set_request,omitempty"`
-	direct        string    // fixed schedule of a known finding's reproducer
+	EarlyClose bool   `json:"early_close,omitempty"`
+	Detach     bool   `json:"detach,omitempty"`
+	Observer   bool   `json:"observer,omitempty"`
+	LateSetReq bool   `json:"late_set_request,omitempty"`
+	direct     string // fixed schedule of a known finding's reproducer
 }
 
 func genConnScn(t *rapid.T, prop string, excl map[string]bool) connScn {
